@@ -448,6 +448,46 @@ pub fn run(ctx: &mut Ctx) {
         }
         utils::verif_hooks::set_callback(None);
     }
+    // ---- free-running threads putting DISTINCT new items into a full cache (C13): whatever the interleaving, after every put the
+    // byte total is within the capacity, and at the end of a round totals, tracked entries and the directory agree
+    {
+        let rounds = if ctx.quick() { 6 } else { 60 };
+        let (nthreads, per_thread) = (8usize, 30usize);
+        let mut rng = ctx.rng.fork(0xD157);
+        for round in 0..rounds {
+            let _ = std::fs::remove_dir_all(&root);
+            std::fs::create_dir_all(&root).unwrap();
+            let len = rng.range(200, 3000) as usize;
+            let file_len = (len + 12) as u64;
+            let slots = rng.range(3, 9);
+            let cap = slots * file_len + rng.below(file_len);
+            let cache = Arc::new(DiskCache::initialize(&CacheConfig { cache_directory: root.clone(), cache_size: cap }).unwrap());
+            let mk = move |t: u64, j: u64| -> (Key, Vec<u8>) { let mut r = Rng::new(round * 1_000_003 + t * 1009 + j); (Key { prefix: "default".into(), hash: merklehash::MerkleHash::from([r.next(), r.next(), t, j]) }, r.bytes(len)) };
+            for j in 0..slots { let (k, d) = mk(99, j); cache.put(&k, &ChunkRange { start: 0, end: 1 }, &[0, len as u32], &d).unwrap(); }
+            let worst = Arc::new(std::sync::atomic::AtomicU64::new(0));
+            let barrier = Arc::new(std::sync::Barrier::new(nthreads));
+            let hs: Vec<_> = (0..nthreads as u64).map(|t| { let (c, w, b) = (cache.clone(), worst.clone(), barrier.clone()); std::thread::spawn(move || {
+                b.wait();
+                for j in 0..per_thread as u64 {
+                    let (k, d) = mk(t, j);
+                    let _ = c.put(&k, &ChunkRange { start: 0, end: 1 }, &[0, len as u32], &d);
+                    if let Ok(tb) = c.total_bytes() { w.fetch_max(tb, std::sync::atomic::Ordering::Relaxed); }
+                }
+            }) }).collect();
+            let panicked = hs.into_iter().map(|h| h.join()).filter(|r| r.is_err()).count();
+            let replay = format!("{{\"suite\":\"cache_conc\",\"seed\":{},\"free_running_round\":{round},\"threads\":{nthreads},\"puts_per_thread\":{per_thread},\"item_file_len\":{file_len},\"capacity\":{cap}}}", ctx.seed);
+            if panicked > 0 { ctx.fail("C12", "panic", format!("{panicked} threads panicked while putting distinct items concurrently (round {round})"), replay.clone()); }
+            let w = worst.load(std::sync::atomic::Ordering::Relaxed);
+            let (n, b, snap) = get_snapshot(&cache);
+            let disk: u64 = item_files(&root).iter().map(|f| std::fs::metadata(root.join(f)).map(|m| m.len()).unwrap_or(0)).sum();
+            if w > cap || b > cap || disk > cap {
+                ctx.fail("C13", "capacity-exceeded-under-concurrent-distinct-puts", format!("{nthreads} threads each put {per_thread} distinct new items of {file_len} bytes into a full cache of capacity {cap}: byte total observed right after a put {w}, at the end {b} ({n} items), on disk {disk} bytes (round {round})"), replay.clone());
+            }
+            let tracked: u64 = snap.iter().map(|(_, v)| v.iter().map(|e| e.2).sum::<u64>()).sum();
+            if tracked != b || disk != b { ctx.fail("C13", "totals-differ-after-concurrent-distinct-puts", format!("after the threads finished: total_bytes {b}, tracked entries sum {tracked}, directory holds {disk} bytes (round {round})"), replay); }
+            ctx.stat("free_running_distinct_put_rounds");
+        }
+    }
     std::panic::set_hook(old_hook);
     let _ = std::fs::remove_dir_all(&root);
     let _: Option<(Env, Rng)> = None;
